@@ -62,6 +62,22 @@ def main() -> None:
             out["growOk"] = bool(tab2[:len(tab1)] == tab1 and dec1 == dec2)
             ta.t.is_parsed = False
             ta.t.load_traces(use_multiprocessing=mp)
+        elif hist == "decoy":
+            # another trace set loaded and analysed first in this interpreter (results discarded)
+            other = TraceAnalysis(trace_dir=os.environ["VF_C11_DECOY"])
+            for fn in (lambda: other.get_temporal_breakdown(visualize=False), lambda: other.get_comm_comp_overlap(visualize=False),
+                       lambda: other.get_gpu_kernel_breakdown(visualize=False, num_kernels=2, include_memory_kernels=True),
+                       lambda: other.get_idle_time_breakdown(ranks=sorted(other.t.traces)[:1], visualize=False),
+                       lambda: other.get_queue_length_time_series(ranks=sorted(other.t.traces)),
+                       lambda: other.get_memory_bw_time_series(ranks=sorted(other.t.traces)),
+                       lambda: other.get_cuda_kernel_launch_stats(ranks=sorted(other.t.traces), visualize=False)):
+                try:
+                    fn()
+                except Exception:
+                    pass
+            ta = TraceAnalysis.__new__(TraceAnalysis)
+            ta.t = Trace(trace_files=files, trace_dir=d)
+            ta.t.load_traces(use_multiprocessing=False)
         elif hist != "":
             ta = TraceAnalysis.__new__(TraceAnalysis)
             ta.t = Trace(trace_files=files, trace_dir=d)
